@@ -39,7 +39,7 @@ def CmpOK (d : Doc) (c : OCtx) (ssid : Nat) (me : Bool) : Prop :=
 def EFfM (fuel : Nat) : Prop :=
   ∀ me ssid fm name c, CI s d c → EntOK (fun _ e => Ent s d e) fm →
     (∀ sels p rn e, SelSet d ssid sels → Adm s d ssid p → CollD s p sels rn e → e ∈ AL.getD fm rn []) →
-    Apart d ssid name → CmpOK d c ssid me →
+    CmpOK d c ssid me →
     (betweenFieldsAndFragmentM s fx fuel me ssid fm name c).2.crash = none →
     name ∈ (betweenFieldsAndFragmentM s fx fuel me ssid fm name c).2.cmp ∧
     GPM s d c (betweenFieldsAndFragmentM s fx fuel me ssid fm name c)
